@@ -48,7 +48,8 @@ theorem source_order :
     Gen.Commit.commitRemovesOnRenameError = true ∧ Gen.Commit.writeFileCommitsOnlyOnOk = true ∧
     Gen.Commit.readerEofOnlyAfterLast = true ∧ Gen.Commit.tempSuffix = ".svspart" ∧
     Gen.Commit.tempCreateTruncates = true ∧ Gen.Commit.tempAppendsToFileName = true ∧
-    Gen.Commit.asyncLoopOkOnlyOnLastOrGone = true ∧ Gen.Commit.teeWritesAll = true := by decide
+    Gen.Commit.asyncLoopOkOnlyOnLastOrGone = true ∧ Gen.Commit.teeWritesAll = true ∧
+    Gen.Commit.pullPathsHaveNoTimers = true ∧ Gen.Commit.readerProducerUsesIoCopy = true := by decide
 
 /-- `TrailerHold`: for every sequence of writes (any sizes, any count) the bytes forwarded to the file
 and the digest are the stream minus its last `n` bytes, the held bytes are the last `n`; a stream
